@@ -14,6 +14,7 @@ import RedisVerif.Driver.C14
 import RedisVerif.Driver.C19
 import RedisVerif.Driver.C18
 import RedisVerif.Driver.C05
+import RedisVerif.Driver.C16
 
 open RedisVerif.Driver
 
@@ -38,6 +39,7 @@ def main (args : List String) : IO UInt32 := do
   match args with
   | ["C07"] => loop stdin stdout C07.step; return 0
   | ["C05"] => loopState stdin stdout C05.step C05.St.init; return 0
+  | ["C16"] => loop stdin stdout C16.step; return 0
   | ["C06"] => loopState stdin stdout C06.step (RedisVerif.Cluster.init 0 false); return 0
   | ["C08"] => loopState stdin stdout C08.step (RedisVerif.Shard.init 0 false); return 0
   | ["C01"] | ["C17"] => loopState stdin stdout C01.stepLine RedisVerif.Redis.init; return 0
